@@ -177,17 +177,18 @@ def strip_cigar(links):
 
 
 def check(case):
-    lines, = case
+    lines = case[0]
+    vlevel = case[1] if len(case) > 1 else 1
     fails = []
     def fail(sig, what):
-        fails.append(dict(signature="C14:" + sig, what=what, case=dict(lines=lines),
-                          reproducer="import gfapy\ng = gfapy.Gfa(%r)\nprint([[str(x) for x in p] for p in g.linear_paths()])\ng.merge_linear_paths()\nprint(g)" % (lines,)))
+        fails.append(dict(signature="C14:" + sig, what=what, case=dict(lines=lines, vlevel=vlevel),
+                          reproducer="import gfapy\ng = gfapy.Gfa(%r, vlevel=%d)\nprint([[str(x) for x in p] for p in g.linear_paths()])\ng.merge_linear_paths()\nprint(g)" % (lines, vlevel)))
     fs = [l.split("\t") for l in lines]
     segs = [f[1] for f in fs if f[0] == "S"]
     seqs = {f[1]: f[2] for f in fs if f[0] == "S"}
     links = [f for f in fs if f[0] == "L"]
     try:
-        g = gfapy.Gfa(lines, vlevel=1)
+        g = gfapy.Gfa(lines, vlevel=vlevel)
         want = sorted(canon_chain(c, cyc) for c, cyc in chains(segs, links))
         got_paths = g.linear_paths()
         got = []
@@ -228,6 +229,9 @@ def check(case):
         w = state.wf_errors(g)
         if w:
             fail("wf:%s" % w[0][0], w[0][1])
+        odd = [str(l) for l in g.lines if l.vlevel != vlevel]
+        if odd:
+            fail("line-at-another-validation-level-after-merge", "level %d graph: %s" % (vlevel, odd[:2]))
         comps_after = sorted(sorted(x.name for x in c) for c in g.connected_components())
         if len(comps_after) != len(comps_before):
             fail("components-not-preserved", "%s -> %s" % (comps_before, comps_after))
@@ -300,7 +304,7 @@ def cases(tier, seed):
             lines.insert(rng.randrange(0, len(lines) + 1), pl)
         if rng.random() < 0.25:
             rng.shuffle(lines)
-        out.append((lines,))
+        out.append((lines, rng.choice([1, 1, 2, 3])))
     return out
 
 
@@ -308,7 +312,7 @@ if __name__ == "__main__":
     tier, seed = harness.args()
     cs = cases(tier, seed)
     res = harness.run(cs, check,
-                      rule="seeded GFA1 graphs: 2-5 segments (with 6-base sequences or '*'), 1-5 links with random orientations (self-links, hairpins, branching, cycles), overlaps '*' or match-only, in a third of the graphs a path over one link (either direction, '*' or the link's overlap) inserted at a random position, a quarter in shuffled line order; oracle = reference "
+                      rule="seeded GFA1 graphs: 2-5 segments (with 6-base sequences or '*'), 1-5 links with random orientations (self-links, hairpins, branching, cycles), overlaps '*' or match-only, in a third of the graphs a path over one link (either direction, '*' or the link's overlap) inserted at a random position, a quarter in shuffled line order, at validation level 1, 2 or 3; oracle = reference "
                            "implementation on the text: end degrees, maximal chains (compared up to reversal / rotation of a cycle), spelled sequence with overlap trimming, merged name, outward links re-attached to "
                            "the merged segment's ends (compared up to reversal of each merged segment), components, WF, idempotence; when every segment has a length, the graph converted to GFA2 is merged there, re-read at validation level 3 and converted back: same segments and links as the GFA1 merge",
                       bound="<=5 segments, <=5 links", exhaustive=False)
